@@ -135,6 +135,12 @@ func genC15(r *rand.Rand, tier string, env *Env) []Case {
 				Oracles: []Op{{"c15.writeset", [][]byte{encodeTree(ct.t), []byte(strings.Join(c, "\x00")), []byte(mode)}}}})
 		}
 	}
+	// the model's predicted tree vs the binary's (K10)
+	nt := 10
+	if tier == "thorough" {
+		nt = 150
+	}
+	cases = append(cases, genCliTreeCases(r, nt)...)
 	return cases
 }
 
@@ -329,10 +335,24 @@ func genC16(r *rand.Rand, tier string, env *Env) []Case {
 				faultyPath = fp(ra)
 			}
 			for _, c := range f.cmds(ra) {
-				cases = append(cases, Case{Kind: "fault:" + f.name,
+				cases = append(cases, Case{Kind: "fault:" + f.name, Ops: cliCmdOps(ct, c),
 					Oracles: []Op{{"c16.loud", [][]byte{encodeTree(ct.t), []byte(strings.Join(c, "\x00")), []byte(strings.Join(walkOrder(ct.t), "\x00")), []byte(faultyPath)}}}})
 			}
 		}
+	}
+	// the same commands on fault-free trees: the model predicts stdout / tree / exit status of success as well
+	nOk := 6
+	if tier == "thorough" {
+		nOk = 80
+	}
+	for i := 0; i < nOk; i++ {
+		ct := genCRSTree(r, 1+r.Intn(4))
+		ra := pick(r, ct.ra)
+		var ops []Op
+		for _, c := range [][]string{{"regex", "generate", ra.arg}, {"regex", "update", ra.arg}, {"regex", "update", "-a"}, {"regex", "generate", ra.arg + ".ra"}} {
+			ops = append(ops, cliCmdOps(ct, c)...)
+		}
+		cases = append(cases, Case{Kind: "no-fault", Ops: ops})
 	}
 	return cases
 }
@@ -444,6 +464,21 @@ func genC08(r *rand.Rand, tier string, env *Env) []Case {
 					Oracles: []Op{{"c08.all", [][]byte{encodeTree(ct.t), []byte(cmd), []byte(strings.Join(perm, "\x00"))}}}})
 			}
 		}
+	}
+	// the model's --all against the binary's (K10)
+	nt := 6
+	if tier == "thorough" {
+		nt = 80
+	}
+	for i := 0; i < nt; i++ {
+		ct := genCRSTree(r, 2+r.Intn(4))
+		if i%2 == 1 {
+			addLeakScenario(r, ct, (i/2)%4)
+		}
+		files := treeArgs(ct.t)
+		ops := cliCmdOps(ct, []string{"regex", "update", "-a"})
+		ops = append(ops, Op{"cli.formatAll", append([][]byte{[]byte("0"), []byte("LINT")}, files...)})
+		cases = append(cases, Case{Kind: "tree:update-all+format-all", Ops: ops})
 	}
 	return cases
 }
